@@ -109,6 +109,43 @@ var schema = map[string]map[string]fieldSpec{
 var retypes = []val.V{val.Int(1), val.Str("x"), val.Bool(true), val.Bytes([]byte{1, 2, 3, 4, 5, 6, 7, 8, 9, 10, 11, 12}), val.List(), val.Map(), val.Float(1.5), val.V{K: "link", X: []byte{9}}}
 
 var bigInts = []val.V{val.Int(maxSafe + 1), val.Int(-(maxSafe + 1)), val.Int(math.MaxInt64), val.Int(math.MinInt64), val.Uint(1 << 63), val.Uint(math.MaxUint64)}
+func st(xs ...val.V) val.V { return val.List(xs...) }
+
+var okStmt = st(val.Str("=="), val.Str(".a"), val.Int(1))
+
+var polCores = []func(big val.V) val.V{
+	func(b val.V) val.V { return st(val.Str("=="), val.Str(".a"), b) },
+	func(b val.V) val.V { return st(val.Str(">"), val.Str(".a"), b) },
+	func(b val.V) val.V { return st(val.Str("<="), val.Str(".a?"), b) },
+	func(b val.V) val.V { return st(val.Str("=="), val.Str(".a"), val.List(val.Int(1), val.Map(val.E("x", b)))) },
+	func(b val.V) val.V { return st(val.Str("!="), val.Str(".a"), val.Map(val.E("k", val.List(b)))) },
+}
+
+var polShapes = []func(core val.V) val.V{
+	func(c val.V) val.V { return c },
+	func(c val.V) val.V { return st(val.Str("not"), c) },
+	func(c val.V) val.V { return st(val.Str("and"), val.List(okStmt, c)) },
+	func(c val.V) val.V { return st(val.Str("or"), val.List(c, okStmt)) },
+	func(c val.V) val.V { return st(val.Str("all"), val.Str(".l"), c) },
+	func(c val.V) val.V { return st(val.Str("any"), val.Str(".l"), c) },
+	func(c val.V) val.V { return st(val.Str("any"), val.Str(".l"), st(val.Str("all"), val.Str("."), c)) },
+	func(c val.V) val.V { return st(val.Str("not"), st(val.Str("any"), val.Str(".l"), st(val.Str("or"), val.List(c)))) },
+	func(c val.V) val.V { return st(val.Str("all"), val.Str(".l"), st(val.Str("and"), val.List(st(val.Str("any"), val.Str("."), c)))) },
+	func(c val.V) val.V { return st(val.Str("or"), val.List(st(val.Str("not"), st(val.Str("not"), c)))) },
+	func(c val.V) val.V { return st(val.Str("and"), val.List(okStmt, okStmt, okStmt, st(val.Str("and"), val.List(st(val.Str("and"), val.List(c)))))) },
+}
+
+var argShapes = []func(big val.V) val.V{
+	func(b val.V) val.V { return val.Map(val.E("a", b)) },
+	func(b val.V) val.V { return val.Map(val.E("a", val.Int(1)), val.E("l", val.List(val.Int(1), val.Map(val.E("deep", b))))) },
+	func(b val.V) val.V { return val.Map(val.E("l", val.List(b))) },
+	func(b val.V) val.V { return val.Map(val.E("l", val.List(val.Int(1), val.Int(2), val.Int(3), b))) },
+	func(b val.V) val.V { return val.Map(val.E("m", val.Map(val.E("m", val.Map(val.E("m", val.Map(val.E("m", b)))))))) },
+	func(b val.V) val.V { return val.Map(val.E("l", val.List(val.List(val.List(val.List(b)))))) },
+	func(b val.V) val.V { return val.Map(val.E("a", val.Str("x")), val.E("b", val.Bytes([]byte{1})), val.E("zzzzzzzz", b)) },
+	func(b val.V) val.V { return val.Map(val.E("", b)) },
+}
+
 var okInts = []val.V{val.Int(maxSafe), val.Int(-maxSafe), val.Int(0)}
 
 var badDIDs = []string{"", "did:key:", "did:web:example.com", "did:key:zQ", "not a did", "did:key:z6Mk", "did:key:f00"}
@@ -231,16 +268,17 @@ func applyMut(typ string, p val.V, m Mut) (val.V, string, bool) {
 		big := bigInts[m.N%len(bigInts)]
 		switch m.Field {
 		case "args":
-			set(val.Map(val.E("a", val.Int(1)), val.E("l", val.List(val.Int(1), val.Map(val.E("deep", big))))))
-			if m.N%2 == 1 {
-				set(val.Map(val.E("a", big)))
-			}
+			k := m.N / len(bigInts)
+			set(argShapes[k%len(argShapes)](big))
 			return out, "reject", true
 		case "pol":
-			set(val.List(val.List(val.Str("=="), val.Str(".a"), val.List(val.Int(1), val.Map(val.E("x", big))))))
-			if m.N%2 == 1 {
-				set(val.List(val.List(val.Str(">"), val.Str(".a"), big)))
-			}
+			// the out-of-range integer sits in a comparison literal (bare, or nested in a list / map literal)
+			// at every syntactic position a statement can occupy: top level, under not / and / or / all / any
+			// and under combinations of them
+			k := m.N / len(bigInts)
+			core := polCores[k%len(polCores)](big)
+			shape := polShapes[(k/len(polCores))%len(polShapes)]
+			set(val.List(shape(core)))
 			return out, "reject", true
 		case "meta":
 			set(val.Map(val.E("k", big)))
@@ -584,7 +622,7 @@ var payProp = h.Define(P, "payload", func(t *rapid.T) PayCase {
 	pc := PayCase{Type: typ}
 	n := rapid.IntRange(1, 2).Draw(t, "nmut")
 	for i := 0; i < n; i++ {
-		pc.Muts = append(pc.Muts, Mut{Field: rapid.SampledFrom(fieldsOf[typ]).Draw(t, "field"), Kind: rapid.SampledFrom(mutKinds).Draw(t, "kind"), N: rapid.IntRange(0, 23).Draw(t, "n")})
+		pc.Muts = append(pc.Muts, Mut{Field: rapid.SampledFrom(fieldsOf[typ]).Draw(t, "field"), Kind: rapid.SampledFrom(mutKinds).Draw(t, "kind"), N: rapid.IntRange(0, 359).Draw(t, "n")})
 	}
 	if rapid.IntRange(0, 4).Draw(t, "envmut") == 0 {
 		pc.Env = rapid.SampledFrom(envMuts).Draw(t, "env")
@@ -600,7 +638,11 @@ func TestPayloadProduct(t *testing.T) {
 		payProp.One(t, PayCase{Type: typ})
 		for _, f := range fieldsOf[typ] {
 			for _, k := range mutKinds {
-				for n := 0; n < 12; n++ {
+				nmax := 12
+				if k == "nested-bigint" {
+					nmax = len(bigInts) * len(polCores) * len(polShapes)
+				}
+				for n := 0; n < nmax; n++ {
 					payProp.One(t, PayCase{Type: typ, Muts: []Mut{{Field: f, Kind: k, N: n}}})
 				}
 			}
